@@ -197,6 +197,12 @@ func upstream(f *fixture) dnsserver.Handler {
 	return dnsserver.HandlerFunc(func(ctx context.Context, rw dnsserver.ResponseWriter, req *dns.Msg) error {
 		q := req.Question[0]
 		f.hook(f.reqs[req.Id].Client, "upstream")
+		if strings.HasPrefix(strings.ToLower(q.Name), "fail.") {
+			// The upstreams are down for this name.
+			f.count("upstream.failure")
+
+			return fmt.Errorf("upstream: exchanging %q: connection refused", q.Name)
+		}
 		// Names are case-insensitive; the question is echoed as it was asked,
 		// the records carry the canonical name.
 		q.Name = strings.ToLower(q.Name)
@@ -600,7 +606,26 @@ func newFixture(cache *dnssvc.CacheConfig, reqs map[uint16]sreq, logPath ...stri
 // nil) in place of the scripted ones; cold: their caches are emptied before
 // every call.
 func newFixtureWith(cache *dnssvc.CacheConfig, reqs map[uint16]sreq, real *realFilters, cold bool, logPath ...string) *fixture {
+	return newFixtureOpts(cache, reqs, real, cold, fixtureOpts{}, logPath...)
+}
+
+// fixtureOpts are the options of the wire campaign (wire.go): the addresses of
+// the clients (loopback addresses that a socket can be bound to), the servers
+// of the group, and no identity oracle at the filters (it finds the request of a
+// message by its ID; on the wire the clients use the same IDs at the same time).
+type fixtureOpts struct {
+	ipOf    func(c int) netip.Addr
+	servers []*agd.Server
+	noIdent bool
+}
+
+func newFixtureOpts(cache *dnssvc.CacheConfig, reqs map[uint16]sreq, real *realFilters, cold bool, fo fixtureOpts,
+	logPath ...string) *fixture {
 	f := &fixture{reqs: reqs, parkClient: -2}
+	ipOf := clientIP
+	if fo.ipOf != nil {
+		ipOf = fo.ipOf
+	}
 	if len(logPath) > 0 {
 		f.logPath = logPath[0]
 	}
@@ -615,7 +640,7 @@ func newFixtureWith(cache *dnssvc.CacheConfig, reqs map[uint16]sreq, real *realF
 		}
 		confs[conf] = i
 		devs[i] = &agd.Device{Auth: &agd.AuthSettings{PasswordHash: agdpasswd.AllowAuthenticator{}},
-			ID: agd.DeviceID(fmt.Sprintf("dev%05d", i)), LinkedIP: clientIP(i), FilteringEnabled: true, Name: devName(i)}
+			ID: agd.DeviceID(fmt.Sprintf("dev%05d", i)), LinkedIP: ipOf(i), FilteringEnabled: true, Name: devName(i)}
 		profs[i] = &agd.Profile{
 			FilterConfig: conf, Access: access.EmptyProfile{}, BlockingMode: blockingModes[i%len(blockingModes)],
 			Ratelimiter: agd.GlobalRatelimiter{}, ID: agd.ProfileID(fmt.Sprintf("prof%04d", i)),
@@ -630,7 +655,17 @@ func newFixtureWith(cache *dnssvc.CacheConfig, reqs map[uint16]sreq, real *realF
 	pdb.OnProfileByLinkedIP = func(_ context.Context, ip netip.Addr) (*agd.Profile, *agd.Device, error) {
 		f.hook(clientOfIP(ip), "profiledb")
 		for i := range profs {
-			if clientIP(i) == ip {
+			if ipOf(i) == ip {
+				return profs[i], devs[i], nil
+			}
+		}
+
+		return nil, nil, profiledb.ErrDeviceNotFound
+	}
+	// The encrypted protocols find the device by the ID in the TLS server name.
+	pdb.OnProfileByDeviceID = func(_ context.Context, id agd.DeviceID) (*agd.Profile, *agd.Device, error) {
+		for i := range profs {
+			if devs[i].ID == id {
 				return profs[i], devs[i], nil
 			}
 		}
@@ -643,8 +678,10 @@ func newFixtureWith(cache *dnssvc.CacheConfig, reqs map[uint16]sreq, real *realF
 
 		return &agdtest.Filter{
 			OnFilterRequest: func(ctx context.Context, req *filter.Request) (filter.Result, error) {
-				f.hook(f.reqs[req.DNS.Id].Client, "filter-request")
-				f.identity(ctx, "FilterRequest", profile, req.DNS, req.RemoteIP, req.ClientName, req, !strings.HasPrefix(req.Host, "cname."))
+				if !fo.noIdent {
+					f.hook(f.reqs[req.DNS.Id].Client, "filter-request")
+					f.identity(ctx, "FilterRequest", profile, req.DNS, req.RemoteIP, req.ClientName, req, !strings.HasPrefix(req.Host, "cname."))
+				}
 				switch {
 				case isBlockedFor(profile, req.Host):
 					return &filter.ResultBlocked{List: "verif_list", Rule: rule(req.Host)}, nil
@@ -669,8 +706,10 @@ func newFixtureWith(cache *dnssvc.CacheConfig, reqs map[uint16]sreq, real *realF
 				return nil, nil
 			},
 			OnFilterResponse: func(ctx context.Context, resp *filter.Response) (filter.Result, error) {
-				f.hook(f.reqs[resp.DNS.Id].Client, "filter-response")
-				f.identity(ctx, "FilterResponse", profile, resp.DNS, resp.RemoteIP, resp.ClientName, nil, true)
+				if !fo.noIdent {
+					f.hook(f.reqs[resp.DNS.Id].Client, "filter-response")
+					f.identity(ctx, "FilterResponse", profile, resp.DNS, resp.RemoteIP, resp.ClientName, nil, true)
+				}
 				if q := resp.DNS.Question[0]; strings.HasPrefix(strings.ToLower(q.Name), "rblock.") && profile%2 == 0 {
 					return &filter.ResultBlocked{List: "verif_resp_list", Rule: rule(strings.ToLower(q.Name))}, nil
 				}
@@ -701,6 +740,10 @@ func newFixtureWith(cache *dnssvc.CacheConfig, reqs map[uint16]sreq, real *realF
 	// name; give every fixture its own.
 	prometheus.DefaultRegisterer = prometheus.NewRegistry()
 	srv := stack.NewServer("dns", agd.ProtoDNS, true)
+	servers := []*agd.Server{srv}
+	if fo.servers != nil {
+		servers, srv = fo.servers, fo.servers[0]
+	}
 	// The constructor of the server (for clients without a profile) differs from
 	// the one of every profile.
 	msgs, err := dnsmsg.NewConstructor(&dnsmsg.ConstructorConfig{Cloner: cl, BlockingMode: &dnsmsg.BlockingModeNXDOMAIN{},
@@ -711,7 +754,7 @@ func newFixtureWith(cache *dnssvc.CacheConfig, reqs map[uint16]sreq, real *realF
 		group = real.group
 	}
 	conf := &stack.Config{ProfileDB: pdb, FilterStorage: fs, Upstream: upstream(f), Cache: cache, Cloner: cl,
-		Servers: []*agd.Server{srv}, Messages: msgs, GroupFilterConfig: group, GeoSubnet: geoSubnetFor,
+		Servers: servers, Messages: msgs, GroupFilterConfig: group, GeoSubnet: geoSubnetFor,
 		GeoData: func(_ string, ip netip.Addr) (*geoip.Location, error) {
 			f.hook(clientOfIP(ip), "geoip")
 
